@@ -4,7 +4,7 @@ import os
 
 VERIF = os.path.dirname(os.path.dirname(os.path.abspath(__file__)))
 
-HOOK_COMMITS = ["8bcfe8c", "5d046f9", "a0af22e"]
+HOOK_COMMITS = ["8bcfe8c", "5d046f9", "a0af22e", "c643d0a"]
 
 CHECKS = {
     "C01": dict(
